@@ -83,6 +83,15 @@ fn make_bundle(j: usize) -> FluentBundleResult<FluentResource> {
         // same depth structure, but the message formats to the EMPTY string: an answer all the same (api `z`)
         src.push_str(&format!("z{} = {{ \"\" }}\n", d));
     }
+    for d in 1..=64usize {
+        // api `w`: `w<d>` has a VALUE from bundle d-1 on and is attribute-only (value-less) in every earlier bundle: a batch of
+        // values sees the message without a value first and its value later
+        if d <= j + 1 {
+            src.push_str(&format!("w{} = b{}\n", d, j));
+        } else {
+            src.push_str(&format!("w{} =\n    .a = x\n", d));
+        }
+    }
     // present in every bundle, attributes only (no value): answers a messages request at once, never a value request
     src.push_str("ao =\n    .a = x\n");
     if j % 3 == 1 {
@@ -195,6 +204,9 @@ fn key_ids(api: char, d: usize) -> Vec<String> {
     } else if api == 'z' {
         // a key that formats to "" first, the deep key last (both answered by the same bundle)
         vec![format!("z{}", d), format!("m{}", d)]
+    } else if api == 'w' && d <= 64 {
+        // a key that is value-less in every earlier bundle first, the deep key last (both answered by the same bundle)
+        vec![format!("w{}", d), format!("m{}", d)]
     } else {
         // a shallower key first, the deep key last
         vec![format!("m{}", std::cmp::max(1, d / 2)), format!("m{}", d)]
@@ -212,7 +224,7 @@ fn make_fut<'a>(b: &'a Bundles<Gen>, api: char, d: usize) -> Fut<'a> {
                 .map(|c| c.into_owned());
             (vec![r], errors)
         }),
-        's' | 'e' | 'z' => Box::pin(async move {
+        's' | 'e' | 'z' | 'w' => Box::pin(async move {
             let keys: Vec<L10nKey> = ids.iter().map(|i| L10nKey::from(i.as_str())).collect();
             let mut errors = vec![];
             let r = b.format_values(&keys, &mut errors).await;
@@ -242,7 +254,7 @@ fn run_sync(b: &Bundles<Gen>, api: char, d: usize) -> Result<Out, LocalizationEr
                 .map(|c| c.into_owned());
             (vec![r], errors)
         }
-        's' | 'e' | 'z' => {
+        's' | 'e' | 'z' | 'w' => {
             let keys: Vec<L10nKey> = ids.iter().map(|i| L10nKey::from(i.as_str())).collect();
             let r = b.format_values_sync(&keys, &mut errors)?;
             (r.into_iter().map(|o| o.map(|c| c.into_owned())).collect(), errors)
@@ -296,6 +308,8 @@ fn show_done(api: char, d: usize, out: &Out) -> String {
             LocalizationError::Bundle { .. } => {}
             // api `e`: the answering bundle reports the unknown variable; that is part of the answer
             LocalizationError::Resolver { .. } if api == 'e' => {}
+            // api `w`: every earlier bundle has the first key without a value
+            LocalizationError::MissingValue { .. } if api == 'w' => {}
             other => extra.push_str(&format!("~unexpected-error:{:?}", other).replace([';', ' '], "_")),
         }
     }
@@ -315,6 +329,12 @@ fn show_done(api: char, d: usize, out: &Out) -> String {
         let expect = if got.is_empty() { None } else { Some("<novalue>".to_string()) };
         if answers[0] != expect {
             extra.push_str("~attr-only-key-mismatch");
+        }
+    } else if api == 'w' && d <= 64 {
+        // the key that was value-less so far is answered by the bundle that answers the deep key
+        let expect = ans.clone();
+        if answers[0] != expect {
+            extra.push_str("~valueless-then-value-key-mismatch");
         }
     } else if api == 'z' {
         // the empty-text key is answered (with "") by the bundle that answers the deep key
@@ -352,6 +372,7 @@ fn parse_op(k: usize, op: &str) -> Option<Op> {
                 "n" => 'n',
                 "e" => 'e',
                 "z" => 'z',
+                "w" => 'w',
                 _ => return None,
             };
             if c >= k {
